@@ -9,6 +9,10 @@
 #include "common.h"
 #include "spsc_fifo.h"
 
+/* VR_BIAS=.data:<k> (same k here): abstract item v travels as payload word v - k, so item k is a
+ * NULL payload in the real code; the runtime prints the data cells plus k again */
+static long payload_bias;
+
 static spsc_fifo_t fifo;
 #define MAXN 4096
 static spsc_node_t* freelist[MAXN];
@@ -38,7 +42,7 @@ static void do_pop(void) {
   spsc_node_t* r = spsc_fifo_trypop(&fifo);
   long v = 0;
   if (r) {
-    v = (long)r->data;
+    v = (long)r->data + payload_bias;
     put_node(r);
   }
   vr_note("ret pop %ld", v);
@@ -49,7 +53,7 @@ static void do_op(int t, const char* op) {
     long v = atol(op + 1);
     vr_note("call push %ld", v);
     spsc_node_t* n = get_node();
-    n->data = (void*)v;
+    n->data = (void*)(v - payload_bias);
     spsc_fifo_push(&fifo, n);
     vr_note("ret push 1");
   } else if (op[0] == 'o' && t == 0) {
@@ -64,6 +68,7 @@ int main(int argc, char** argv) {
   if (argc < 3) return 2;
   int spare = atoi(argv[1]);
   vh_parse(argv[2]);
+  { const char* b = getenv("VR_BIAS"); const char* c = b ? strrchr(b, ':') : 0; payload_bias = c ? atol(c + 1) : 0; }
   if (vh_script.nthreads > 2) { fprintf(stderr, "spsc: exactly one producer thread\n"); return 2; }
   VH_DIRTY(fifo);
   if (!spsc_fifo_init(&fifo)) return 2;
@@ -81,7 +86,7 @@ int main(int argc, char** argv) {
   for (;;) {
     vr_note("call pop");
     spsc_node_t* r = spsc_fifo_trypop(&fifo);
-    long v = r ? (long)r->data : 0;
+    long v = r ? (long)r->data + payload_bias : 0;
     vr_note("ret pop %ld", v);
     if (!r) break;
   }
